@@ -7,13 +7,15 @@ from vlib.logixbench import LogixScenario
 LEVEL = "exploration"
 SHARDS = {"quick": 8, "thorough": 16}
 TIMEOUT = {"quick": 900, "thorough": 3600}
+MIN_EVALUATIONS = {"quick": 80000, "thorough": 80000}  # fewer oracle evaluations than this means the workload collapsed: inconclusive
 RULE = ("the reference target compares the first two bytes of every connected data item with those of the previous item on the same connection "
         "(a repeat is also answered from its reply cache, like a real target).  Workloads: (a) histories of > 65 535 real connected requests on "
         "one connection so the 16-bit counter wraps inside real traffic - one request kind per shard {generic message, single read, multi-tag "
         "read, 2-/3-fragment read followed by single requests, fragmented write, bit writes, single writes, tag upload}; (b) for every request "
         "kind the driver's counter is advanced to within +-12 of the wrap (by drawing values from it, the state a long history reaches) and "
-        ">= 40 real requests are issued across the wrap, for every phase offset; (c) lifecycle histories with lost replies / resets (a resent "
-        "frame would repeat its count).  distinct = (request kind, phase offset | history, wrapped?) executed")
+        ">= 40 real requests are issued across the wrap, for every phase offset; (c) lifecycle histories incl. redundant open() / with-blocks on an "
+        "open driver, with lost replies / resets (a resent frame would repeat its count); (d) bulk read()/write() calls of n requests for n around "
+        "every power of two up to 32 769 (many counts drawn between two frames, several multi-service packets back to back).  distinct = (request kind, phase offset | history, wrapped?) executed")
 ASSUMPTIONS = [
     "workload (b) uses the driver's `_sequence` generator to reach the pre-wrap state quickly; when that attribute is absent only (a) and (c) run",
     "one connection at a time; counts are compared per connection",
@@ -148,16 +150,49 @@ def run(ctx):
                 sc.close()
             except ScenarioDead:
                 continue
+    # ---- (d) bulk calls: many requests in one call draw many counts between two frames (several multi-service packets back to back) --------
+    bulk = [2, 3, 15, 16, 17, 127, 128, 129, 215, 216, 217, 254, 255, 256, 257, 430, 511, 512, 513, 1023, 1024, 1025, 2047, 2048, 2049,
+            4093, 4094, 4095, 4096, 4097, 8190, 8191, 8192, 8193, 16382, 16383, 16384, 16385, 32766, 32767, 32768, 32769]
+    if not quick:
+        bulk += list(range(200, 700, 7)) + [rng.randrange(2, 40000) for _ in range(60)]
+    for bi, n in enumerate(bulk):
+        if not ctx.mine(bi):
+            continue
+        try:
+            sc = LogixScenario(rng, config=("fw32", 32, False, True) if bi % 3 else ("fw20-500", 20, False, False), project=project(rng))
+            if not sc.ok():
+                sc.close()
+                continue
+            sc.b.net.call_budget = 400000
+            for op in ("read", "write"):
+                issue(sc, "generic", rng)
+                names = [rng.choice(["d1", "d2", "i1", "r1"]) for _ in range(n)]
+                if op == "read":
+                    st, out = sc.b.call("read", sc.drv.read, *names)
+                else:
+                    st, out = sc.b.call("write", sc.drv.write, *[(nm, 1) for nm in names])
+                res.ev()
+                res.seen("bulk", op, n)
+                if st != "ok" or not isinstance(out, list) or not all(out):
+                    bad = next((t for t in out if not t), out) if isinstance(out, list) else out
+                    res.violation(f"bulk-{op}-fails", f"{op} of {n} tags in one call -> {bad!r:.160}", {"n": n})
+                issue(sc, "generic", rng)
+            res.count("connected-messages", sc.b.log.counts.get("connected-messages", 0))
+            drain(res, sc.b, f"bulk:{n}")
+            sc.close()
+        except ScenarioDead:
+            continue
     # ---- (c) lost replies / resets: a retransmitted frame would repeat its count ----------------------------------------------------------
     prng = common.rng_for("C17", ctx.seed, 0, "plan")
     plan = [("cip", h) for h in lifecycle.histories(["open", "gm_conn", "gm_conn", "close"], 3)]
-    plan += [("logix", tuple(prng.choice(["read", "write", "read_big", "gm_conn", "plc_name"]) for _ in range(4))) for _ in range(40 if quick else 400)]
+    plan += [("logix", tuple(prng.choice(["read", "write", "read_big", "gm_conn", "plc_name", "open", "with_ok", "close"]) for _ in range(5))) for _ in range(60 if quick else 500)]
+    plan += [("logix", h) for h in lifecycle.histories(["open", "gm_conn", "with_ok", "plc_name"], 3)]
     for i, (kind_, hist) in enumerate(plan):
         if not ctx.mine(i):
             continue
         hist = ("open",) + tuple(hist)
         try:
-            base = lifecycle.Run(rng, kind_, hist, "large-ok", None).execute()
+            base = lifecycle.Run(rng, kind_, hist, "large-ok", None, init_tags=(i % 2 == 0)).execute()
         except ScenarioDead:
             continue
         drain(res, base.b, f"faults:{kind_}")
@@ -166,7 +201,7 @@ def run(ctx):
         for k in sorted({rng.randint(1, max(1, n_ops)) for _ in range(5 if quick else 20)}):
             for fk in ("recv-raise", "send-raise"):
                 try:
-                    r = lifecycle.Run(rng, kind_, hist, "large-ok", (k, fk)).execute()
+                    r = lifecycle.Run(rng, kind_, hist, "large-ok", (k, fk), init_tags=(i % 2 == 0)).execute()
                 except ScenarioDead:
                     continue
                 res.ev()
